@@ -150,7 +150,7 @@ Lemma dict_inv_nil M pos : dict_inv M pos [].
 Proof. intros k off []. Qed.
 
 Lemma dict_inv_mono M p p' d : dict_inv M p d -> p <= p' -> dict_inv M p' d.
-Proof. intros H L k off I. destruct (H k off I) as (A & B & C & D). repeat split; auto. lia. Qed.
+Proof. intros H L k off I. destruct (H k off I) as (A & B & C & D). repeat split; auto; lia. Qed.
 
 Lemma bytes_eqb_eq a : forall b, bytes_eqb a b = true -> a = b.
 Proof.
@@ -206,36 +206,44 @@ Proof.
       destruct c; [|discriminate]. rewrite lookup_skip in LK by exact PL.
       apply lookup_In in LK. destruct (DI _ _ LK) as (O14 & Os & _ & q' & NB).
       destruct (ptr_bytes off O14) as (b1 & b2 & PB & _ & _ & _ & V).
-      destruct (N.lor 49152 off <? 65536) eqn:VV; [|lia]. inversion E; subst b d'; clear E.
+      destruct (N.lor 49152 off <? 65536) eqn:VV; [|lia].
+      assert (Eb : b = to_be 2 (N.lor 49152 off)) by congruence.
+      assert (Ed : d' = pend ++ d) by congruence. subst b d'. clear E.
       exists []. split; [reflexivity|]. split; [|intros k o []].
-      Show. rewrite blen_to_be. change (N.of_nat 2) with 2.
-      econstructor; eauto; [discriminate|lia].
+      rewrite blen_to_be. change (N.of_nat 2) with 2.
+      eapply nbe_ptr with (t := off); eauto; try discriminate; lia.
     + destruct (63 <? blen l) eqn:LL; [discriminate|].
-      set (d1 := if (c && (pos <? 16384))%bool then (l :: r, pos) :: pend ++ d else pend ++ d) in *.
-      destruct (enc_labels c r (pos + 1 + blen l) d1) as [[br d2]|e] eqn:ER; [|discriminate].
-      inversion E; subst b d'; clear E.
-      assert (at_ M (pos + 1 + blen l) br) as Ar.
-      { apply at_app_r in A. rewrite blen_cons in A.
-        replace (pos + 1 + blen l) with (pos + (1 + blen l)) by lia. exact A. }
-      assert (at_ M pos (blen l :: l)) as Al by (now apply at_app_l in A).
-      assert (blen ((blen l :: l) ++ br) = 1 + blen l + blen br) as BL by (rewrite blen_app, blen_cons; lia).
-      rewrite BL. replace (pos + (1 + blen l + blen br)) with (pos + 1 + blen l + blen br) by lia.
+      assert (forall br, at_ M pos ((blen l :: l) ++ br) ->
+                at_ M (pos + 1 + blen l) br /\ at_ M pos (blen l :: l)
+                /\ pos + blen ((blen l :: l) ++ br) = pos + 1 + blen l + blen br) as FACTS.
+      { intros br A'. split; [|split].
+        - apply at_app_r in A'. rewrite blen_cons in A'.
+          replace (pos + 1 + blen l) with (pos + (1 + blen l)) by lia. exact A'.
+        - now apply at_app_l in A'.
+        - rewrite blen_app, blen_cons. lia. }
       destruct (c && (pos <? 16384))%bool eqn:CP.
       * (* the suffix is entered into the dictionary (pending until the name is complete) *)
-        unfold d1 in ER. change ((l :: r, pos) :: pend ++ d) with (((l :: r, pos) :: pend) ++ d) in ER.
+        change ((l :: r, pos) :: pend ++ d) with (((l :: r, pos) :: pend) ++ d) in E.
+        destruct (enc_labels c r (pos + 1 + blen l) (((l :: r, pos) :: pend) ++ d)) as [[br d2]|e] eqn:ER; [|discriminate].
+        assert (Eb : b = (blen l :: l) ++ br) by congruence. assert (Ed : d' = d2) by congruence. subst b d'. clear E.
+        destruct (FACTS br A) as (Ar & Al & BL). rewrite BL.
         destruct (IH (pos + 1 + blen l) d ((l :: r, pos) :: pend) br d2 NELr ER) as (added & D2 & NB & AD); auto; try lia.
-        { intros k o [I|I]; [inversion I; subst; cbn; lia|]. specialize (PL k o I). cbn in PL. lia. }
+        { intros k o [I|I].
+          - injection I as <- <-. cbn [length]. apply Nat.lt_succ_diag_r.
+          - specialize (PL k o I). cbn [length] in PL. lia. }
         assert (nbe M s pos (l :: r) (pos + 1 + blen l + blen br)) as NBL by (constructor; [lia|exact Al|exact NB]).
         exists (added ++ [(l :: r, pos)]). split; [|split; [exact NBL|]].
         -- rewrite D2. now rewrite <- !app_assoc.
         -- intros k o H. apply in_app_or in H as [I|[I|[]]].
-           ++ destruct (AD _ _ I) as (X1 & X2 & X3 & X4 & X5). repeat split; auto. lia.
+           ++ destruct (AD _ _ I) as (X1 & X2 & X3 & X4 & X5). repeat split; auto; lia.
            ++ inversion I; subst. apply andb_true_iff in CP as [_ CP]. repeat split; auto; try lia. discriminate.
-      * unfold d1 in ER.
+      * destruct (enc_labels c r (pos + 1 + blen l) (pend ++ d)) as [[br d2]|e] eqn:ER; [|discriminate].
+        assert (Eb : b = (blen l :: l) ++ br) by congruence. assert (Ed : d' = d2) by congruence. subst b d'. clear E.
+        destruct (FACTS br A) as (Ar & Al & BL). rewrite BL.
         destruct (IH (pos + 1 + blen l) d pend br d2 NELr ER) as (added & D2 & NB & AD); auto; try lia.
-        { intros k o I. specialize (PL k o I). cbn in PL. lia. }
+        { intros k o I. specialize (PL k o I). cbn [length] in PL. lia. }
         exists added. split; [exact D2|]. split; [constructor; [lia|exact Al|exact NB]|].
-        intros k o H. destruct (AD _ _ H) as (X1 & X2 & X3 & X4 & X5). repeat split; auto. lia.
+        intros k o H. destruct (AD _ _ H) as (X1 & X2 & X3 & X4 & X5). repeat split; auto; lia.
 Qed.
 
 (** Name.encode at [pos] under a valid dictionary: the name can be read back at [pos], and the
@@ -251,7 +259,7 @@ Proof.
   split; [exact NB|]. subst d'. cbn [app]. intros k o I. apply in_app_or in I as [I|I].
   - destruct (AD _ _ I) as (X1 & X2 & X3 & X4 & X5). repeat split; auto.
     exists (pos + blen b). eapply nbe_bound_mono; eauto.
-  - destruct (DI _ _ I) as (X1 & X2 & X3 & X4). repeat split; auto. lia.
+  - destruct (DI _ _ I) as (X1 & X2 & X3 & X4). repeat split; auto; lia.
 Qed.
 
 (** what cannot be represented is refused (the repaired behaviour) *)
@@ -259,7 +267,36 @@ Lemma enc_name_refuses_long_name c ls pos d : 255 < wire_len ls -> enc_name c ls
 Proof. intros H. unfold enc_name. destruct (255 <? wire_len ls) eqn:E; [reflexivity|lia]. Qed.
 
 Lemma enc_labels_refuses_long_label c : forall ls pos d,
-  Exists (fun l => 63 < blen l) ls -> (forall k, lookup d k = None) \/ c = false ->
-  exists e, enc_labels c ls pos d = Err e.
+  Exists (fun l => 63 < blen l) ls ->
+  (forall k o, In (k, o) d -> Forall (fun l => blen l <= 63) k \/ (length ls < length k)%nat) ->
+  enc_labels c ls pos d = Err ValueError.
 Proof.
-Abort.
+  induction ls as [|l r IH]; intros pos d EX DK; [inversion EX|].
+  cbn [enc_labels].
+  destruct (if c then lookup d (l :: r) else None) as [off|] eqn:LK.
+  - exfalso. destruct c; [|discriminate]. apply lookup_In in LK. destruct (DK _ _ LK) as [SH|LN]; [|lia].
+    rewrite Exists_exists in EX. destruct EX as (x & Ix & Lx). rewrite Forall_forall in SH. specialize (SH x Ix). lia.
+  - destruct (63 <? blen l) eqn:LL; [reflexivity|].
+    inversion EX as [? ? Hl|? ? Hr]; subst; [lia|].
+    rewrite IH; [reflexivity|exact Hr|].
+    intros k o I. destruct (c && (pos <? 16384))%bool.
+    + destruct I as [I|I].
+      * injection I as <- <-. right. cbn [length]. apply Nat.lt_succ_diag_r.
+      * destruct (DK _ _ I) as [SH|LN]; [now left|right]. cbn [length] in LN. apply Nat.lt_trans with (S (length r)); [apply Nat.lt_succ_diag_r|exact LN].
+    + destruct (DK _ _ I) as [SH|LN]; [now left|right]. cbn [length] in LN. apply Nat.lt_trans with (S (length r)); [apply Nat.lt_succ_diag_r|exact LN].
+Qed.
+
+(** a dictionary that satisfies the invariant holds only names of short labels *)
+Lemma nbe_labels_short M b p ls q : nbe M b p ls q -> Forall (fun l => blen l <= 63) ls.
+Proof.
+  induction 1 as [b p A|b p l ls q W A _ IH|b p t ls q' NE T14 TB A _ IH]; [constructor| |exact IH].
+  constructor; [lia|exact IH].
+Qed.
+
+Lemma enc_name_refuses_long_label c M ls pos d :
+  Exists (fun l => 63 < blen l) ls -> dict_inv M pos d -> enc_name c ls pos d = Err ValueError.
+Proof.
+  intros EX DI. unfold enc_name. destruct (255 <? wire_len ls); [reflexivity|].
+  apply enc_labels_refuses_long_label; [exact EX|].
+  intros k o I. left. destruct (DI _ _ I) as (_ & _ & _ & q & NB). eapply nbe_labels_short; eauto.
+Qed.
